@@ -19,6 +19,12 @@ Proof.
   - now rewrite IH.
 Qed.
 
+Lemma in_firstn {A} (x : A) j l : In x (firstn j l) -> In x l.
+Proof.
+  revert l; induction j as [|j IH]; intros l H; [destruct H|].
+  destruct l; [destruct H|]. destruct H as [H|H]; [now left|right; auto].
+Qed.
+
 Lemma set_len_app (f x : bytes) : set_len (N.of_nat (length f)) (f ++ x) = f.
 Proof.
   unfold set_len. rewrite Nat2N.id, firstn_app, Nat.sub_diag, firstn_all. cbn [firstn].
@@ -46,14 +52,14 @@ Proof.
   induction orc as [|r orc IH]; intros buf w w' e o H.
   - destruct buf as [|b buf]; cbn in H; inversion H; subst; clear H.
     + split; [apply same_meta_refl|]. exists 0%nat. cbn. rewrite app_nil_r. repeat split; congruence.
-    + split; [repeat split|]. exists (S (length buf)). cbn [w_file put log].
+    + split; [repeat split|]. exists (length (b :: buf)). cbn [w_file put log].
       rewrite (firstn_all (b :: buf)). repeat split; congruence.
   - destruct buf as [|b buf].
     { cbn in H. inversion H; subst. split; [apply same_meta_refl|]. exists 0%nat. cbn.
       rewrite app_nil_r. repeat split; congruence. }
     cbn [write_all] in H.
     destruct r as [|n|er].
-    + inversion H; subst; clear H. split; [repeat split|]. exists (S (length buf)).
+    + inversion H; subst; clear H. split; [repeat split|]. exists (length (b :: buf)).
       cbn [w_file put log]. rewrite (firstn_all (b :: buf)). repeat split; congruence.
     + destruct (Nat.eqb_spec n 0) as [Z|Z].
       { inversion H; subst; clear H. split; [repeat split|]. exists 0%nat. cbn.
@@ -250,21 +256,21 @@ Section WriterProofs.
     (e <> None /\ clean f0 w') \/
     (e <> None /\ dirty f0 ps w').
   Proof.
-    intros Hv (Hp & Hf & Hb). unfold with_rollback. rewrite Hp.
+    intros Hv (Hp & Hf & Hb). subst f0. unfold with_rollback. rewrite Hp.
     destruct (append_batch_internal ps w orc) as [[w1 e1] o1] eqn:E.
     apply batch_internal_spec in E; [|exact Hv]. destruct E as [Mp E].
     destruct e1 as [werr|].
     - destruct E as [(C & _)|(_ & j & t & Ht & Hf1)]; [congruence|].
-      destruct (rollback_to_stable_state (N.of_nat (length f0)) cnt w1 o1) as [[w2 e2] o2] eqn:R.
+      destruct (rollback_to_stable_state (N.of_nat (length (w_file w))) cnt w1 o1) as [[w2 e2] o2] eqn:R.
       apply rollback_spec in R. destruct R as [Mp2 R].
       destruct e2 as [rerr|]; intro H; inversion H; subst; clear H.
       + right. right. split; [discriminate|]. split; [reflexivity|]. cbn [poison w_file].
         destruct R as [(C & _)|(_ & [Hk|Hk])]; [congruence| |].
         * exists j, t. split; [exact Ht|]. congruence.
-        * exists 0%nat, []. split; [left; reflexivity|]. cbn. rewrite app_nil_r, Hk, Hf1, Hf.
+        * exists 0%nat, []. split; [left; reflexivity|]. cbn. rewrite app_nil_r, Hk, Hf1.
           apply set_len_app.
       + right. left. split; [discriminate|]. destruct R as [(_ & Hk & Hb2 & _)|(C & _)]; [|congruence].
-        split; [congruence|]. split; [|exact Hb2]. rewrite Hk, Hf1, Hf. apply set_len_app.
+        split; [congruence|]. split; [|exact Hb2]. rewrite Hk, Hf1. apply set_len_app.
     - destruct E as [(_ & Hf1 & Hb1)|(C & _)]; [|congruence].
       intro H; inversion H; subst; clear H. left. split; [reflexivity|].
       split; [congruence|]. split; [congruence|]. rewrite Hb1, Hb, app_length. lia.
@@ -676,7 +682,7 @@ Section WriterProofs.
     - destruct (is_some (m_get id (e_mem st))); [|destruct Hin]. destruct Hin as [<-|[]].
       inversion Hok; subst. exists 1, id. split; [apply dec_enc; [reflexivity|assumption]|now left].
     - apply in_map_iff in Hin. destruct Hin as (i & <- & Hi). apply filter_In in Hi. destruct Hi as [Hi _].
-      rewrite Forall_forall in Hok. exists 1, i. split; [apply dec_enc; [reflexivity|auto]|exact Hi].
+      rewrite Forall_forall in Hok. exists 1, i. split; [apply dec_enc; [reflexivity|apply Hok; exact Hi]|exact Hi].
     - destruct (is_some (m_get id (e_mem st))); [|destruct Hin]. destruct Hin as [<-|[]].
       inversion Hok; subst. exists 2, id. split; [apply dec_enc; [reflexivity|assumption]|now left].
   Qed.
@@ -701,7 +707,7 @@ Section WriterProofs.
   Proof.
     intros HE Hps Hok H Hid. pose proof HE as (es & HI & Hm).
     assert (Hoth : forall j p, In p (firstn j (op_payloads st op)) -> exists t i, dec p = Some (t, i) /\ i <> id).
-    { intros j p Hp. apply firstn_In in Hp. destruct (op_payloads_ids st op p Hok Hp) as (t & i & Hd & Hi).
+    { intros j p Hp. apply in_firstn in Hp. destruct (op_payloads_ids st op p Hok Hp) as (t & i & Hd & Hi).
       exists t, i. split; [exact Hd|]. intro C. subst. contradiction. }
     destruct (estep_shape _ _ _ _ _ _ H) as [(Hr & -> & _)|(D & Hne & s1 & wr & A & Hcase)].
     - split; [reflexivity|]. exists (e_mem st), (e_mem st). rewrite (EInv_recover _ HE). auto.
